@@ -548,3 +548,156 @@ Proof. vm_compute. repeat split; discriminate. Qed.
 Lemma solve_dim2_refuted_witness :
   spec_supported current c_solve_dim2 = true /\ construct current c_solve_dim2 = Raised E_Crash.
 Proof. vm_compute. split; reflexivity. Qed.
+
+(* ---------------------------------------------------------------------- *)
+(* The step rule: the trace of every run is the closed form of
+   (routine, t0, requested times); no update depends on earlier step sizes.
+   No propagator law is needed.                                              *)
+
+Section StepRule.
+  Variables T Op St : Type.
+  Variable tsub : T -> T -> T.
+  Variable U : T -> Op.
+  Variable P : T -> T -> Op.
+  Variables actL actR : Op -> St -> St.
+  Variable steps : T -> T -> list T.
+  Variable near : T -> T -> bool.
+  Variable skip : bool.
+
+  Let update' := update_to T Op St tsub U P actL actR steps near skip.
+  Let run' := run T Op St tsub U P actL actR steps near skip.
+
+  (* the clock the next step is measured from *)
+  Definition step_clock (s : st T St) : T :=
+    match s_routine T St s with R_integrate => s_st T St s | _ => s_t T St s end.
+
+  Lemma integ_end : forall q l tc y res,
+    fst (fst (integ T Op St tsub U P actL actR q l tc y res)) = last l tc.
+  Proof.
+    intros q l; induction l as [|a l IH]; intros tc y res; cbn; [reflexivity|].
+    rewrite IH. symmetry. apply last_cons.
+  Qed.
+
+  Lemma update_shape : forall s t,
+    (s_routine T St s = R_integrate -> s_eq T St s <> None) ->
+    let s' := update' s t in
+    s_routine T St s' = s_routine T St s /\ s_t0 T St s' = s_t0 T St s /\ s_eq T St s' = s_eq T St s
+    /\ ((s_routine T St s = R_integrate /\ (skip && near t (s_st T St s)) = true
+         /\ s_trace T St s' = s_trace T St s /\ step_clock s' = step_clock s)
+        \/ ((s_routine T St s <> R_integrate \/ (skip && near t (s_st T St s)) = false)
+            /\ step_clock s' = t
+            /\ exists e, s_trace T St s' = e :: s_trace T St s
+               /\ closed_trace T tsub near skip (s_routine T St s) (s_t0 T St s) (step_clock s) [t] = [e])).
+  Proof.
+    intros s t Hq. unfold update', update_to, step_clock.
+    destruct (s_routine T St s) eqn:R.
+    1-4: (cbn; rewrite R; repeat split; auto;
+          right; split; [left; discriminate|]; split; [reflexivity|]; eexists; split; reflexivity).
+    destruct (skip && near t (s_st T St s)) eqn:K.
+    { rewrite R. split; [reflexivity|]. split; [reflexivity|]. split; [reflexivity|]. left. repeat split; reflexivity. }
+    destruct (s_eq T St s) as [q|] eqn:Q; [|exfalso; apply Hq; reflexivity].
+    pose proof (integ_end q (steps (s_st T St s) t ++ [t]) (s_st T St s) (s_sy T St s) (s_results T St s)) as E.
+    destruct (integ T Op St tsub U P actL actR q (steps (s_st T St s) t ++ [t]) (s_st T St s) (s_sy T St s)
+                    (s_results T St s)) as [[tc' y'] res'].
+    cbn in E. rewrite last_last in E. subst tc'. cbn. repeat split; auto.
+    right. split; [right; reflexivity|]. split; [reflexivity|]. eexists; split; [reflexivity|].
+    rewrite K. reflexivity.
+  Qed.
+
+  Lemma closed_trace_cons : forall r t0 cur t ts,
+    closed_trace T tsub near skip r t0 cur (t :: ts)
+    = match r with
+      | R_integrate => if skip && near t cur then closed_trace T tsub near skip r t0 cur ts
+                       else closed_trace T tsub near skip r t0 cur [t] ++ closed_trace T tsub near skip r t0 t ts
+      | _ => closed_trace T tsub near skip r t0 cur [t] ++ closed_trace T tsub near skip r t0 t ts
+      end.
+  Proof.
+    intros r t0 cur t ts. destruct r; cbn; try reflexivity.
+    destruct (skip && near t cur); reflexivity.
+  Qed.
+
+  Lemma run_trace_from : forall ts s,
+    (s_routine T St s = R_integrate -> s_eq T St s <> None) ->
+    rev (s_trace T St (run' s ts))
+    = rev (s_trace T St s) ++ closed_trace T tsub near skip (s_routine T St s) (s_t0 T St s) (step_clock s) ts.
+  Proof.
+    induction ts as [|t ts IH]; intros s Hq.
+    - cbn. destruct (s_routine T St s); cbn; rewrite app_nil_r; reflexivity.
+    - change (run' s (t :: ts)) with (run' (update' s t) ts).
+      destruct (update_shape s t Hq) as (Hr & H0 & He & Hcase).
+      rewrite IH by (rewrite Hr, He; exact Hq).
+      rewrite Hr, H0, closed_trace_cons.
+      destruct Hcase as [(Ri & K & Htr & Hc) | (Hn & Hc & e & Htr & Hcl)].
+      + rewrite Ri. unfold step_clock at 2. rewrite Ri. rewrite K. rewrite Htr, Hc.
+        unfold step_clock. rewrite Ri. reflexivity.
+      + rewrite Htr, Hc, Hcl. cbn [rev]. rewrite <- app_assoc. cbn [app].
+        destruct (s_routine T St s) eqn:R; try reflexivity.
+        destruct Hn as [Hn|Hn]; [congruence|].
+        unfold step_clock. rewrite R. rewrite Hn. reflexivity.
+  Qed.
+
+  Theorem trace_closed_form : forall r m q t0 p0 ts, (r = R_integrate -> q <> None) ->
+    rev (s_trace T St (run' (init T St r m q t0 p0) ts)) = closed_trace T tsub near skip r t0 t0 ts.
+  Proof.
+    intros r m q t0 p0 ts Hq.
+    rewrite run_trace_from by (cbn; exact Hq).
+    cbn. unfold step_clock; cbn. destruct r; reflexivity.
+  Qed.
+
+  (* a step-reuse rule is harmless when (and, see ZI_reuse_key_must_be_exact,
+     only when) its key test accepts nothing but the cached step itself *)
+  Lemma reuse_exact_key_sound : forall close : T -> T -> bool,
+    (forall a b, close a b = true -> a = b) ->
+    forall ts cache prev, reuse_steps T tsub close cache prev ts = increments T tsub prev ts.
+  Proof.
+    intros close Hc; induction ts as [|t ts IH]; intros cache prev; cbn; [reflexivity|].
+    rewrite IH. f_equal. unfold used_step. destruct cache as [c|]; [|reflexivity].
+    destruct (close (tsub t prev) c) eqn:K; [|reflexivity]. symmetry. apply Hc. exact K.
+  Qed.
+End StepRule.
+
+(* every accepted integrate cell has a right-hand side *)
+Lemma accepted_integrate_has_eq : forall v c r m q, construct v c = Accepted r m q ->
+  r = R_integrate -> q <> None.
+Proof.
+  intros v c r m q H Hr.
+  assert (K : all_version (fun v => all_config (fun c =>
+            match construct v c with Accepted R_integrate _ None => false | _ => true end)) = true)
+    by (vm_compute; reflexivity).
+  pose proof (all_config_ok _ (all_version_ok _ K v) c) as X. cbn in X. rewrite H in X. subst r.
+  destruct q; [discriminate|discriminate X].
+Qed.
+
+(* on the integer instance the converse holds: a key test that accepts two
+   different steps a <> b makes some run apply the wrong step *)
+Lemma ZI_reuse_key_must_be_exact : forall close : Z -> Z -> bool,
+  (forall t0 ts, ZI.zreuse_steps close None t0 ts = ZI.zincrements t0 ts) ->
+  forall a b, close a b = true -> a = b.
+Proof.
+  intros close H a b K.
+  specialize (H 0%Z [b; (b + a)%Z]).
+  unfold ZI.zreuse_steps, ZI.zincrements, ZI.tsub in H. cbn [reuse_steps increments used_step] in H.
+  replace (b - 0)%Z with b in H by lia. replace (b + a - b)%Z with a in H by lia.
+  rewrite K in H. injection H as H. symmetry. exact H.
+Qed.
+
+Lemma ZI_reuse_iff : forall close : Z -> Z -> bool,
+  (forall t0 ts, ZI.zreuse_steps close None t0 ts = ZI.zincrements t0 ts)
+  <-> (forall a b, close a b = true -> a = b).
+Proof.
+  intros close; split.
+  - apply ZI_reuse_key_must_be_exact.
+  - intros H t0 ts. apply reuse_exact_key_sound. exact H.
+Qed.
+
+(* exported form: every accepted configuration, every code version, every list
+   of requested times *)
+Theorem step_rule : forall (T Op St : Type) (tsub : T -> T -> T) (U : T -> Op) (P : T -> T -> Op)
+    (actL actR : Op -> St -> St) (steps : T -> T -> list T) (near : T -> T -> bool) (skip : bool),
+  forall v c r m q, construct v c = Accepted r m q ->
+  forall (t0 : T) (p0 : St) (ts : list T),
+    rev (s_trace T St (run T Op St tsub U P actL actR steps near skip (init T St r m q t0 p0) ts))
+    = closed_trace T tsub near skip r t0 t0 ts.
+Proof.
+  intros. apply trace_closed_form. exact (accepted_integrate_has_eq v c r m q H).
+Qed.
